@@ -9,6 +9,7 @@ use crate::suites::ModeSpec;
 pub mod c01;
 pub mod c02;
 pub mod c03;
+pub mod c11;
 pub mod c16;
 
 /// DESIGN §6 alphabets
